@@ -312,3 +312,92 @@ def size(r) -> int:
 
 def is_meta_kind(r) -> bool:
     return r["k"] in ("meta", "dep", "headc")
+
+
+# ------------------------------------------------------------------ random trees
+DEFAULT_KINDS = {"tag": 5, "text": 4, "num": 1}
+
+
+def rand_attrs(rng, n_max=4, hostile=True):
+    out = []
+    for _ in range(rng.randint(0, n_max) if rng.random() < 0.6 else 0):
+        name = rng.choice(ATTR_NAMES)
+        r = rng.random()
+        if r < 0.7:
+            v = {"t": "str", "s": text_of(rng) if hostile else rng.choice(WORDS)}
+        elif r < 0.8:
+            v = {"t": "num", "v": rng.choice([0, 1, 42, -7, 1.5])}
+        elif r < 0.9:
+            v = {"t": "true"}
+        else:
+            v = {"t": "html", "s": rng.choice(["h", "a&amp;b", "x y", "50%"])}
+        out.append([name, v])
+    return out
+
+
+def rand_tree(rng, depth=4, kinds=None, names=tag_name, max_children=5, attrs=True, hows=True,
+              text=text_of, ws=None, leaf_hook=None, root_tag=True):
+    """Random recipe.  kinds: weights over tag/text/num/html/obj/meta/dep/tf/list."""
+    kinds = kinds or DEFAULT_KINDS
+    ks = list(kinds)
+    wts = [kinds[k] for k in ks]
+
+    def node(d, force_tag=False):
+        k = "tag" if force_tag else rng.choices(ks, wts)[0]
+        if k in ("tag", "list", "tf") and d <= 0:
+            k = "text"
+        if k == "tag":
+            name = names(rng)
+            n = rng.randint(0, max_children) if rng.random() < 0.85 else 0
+            kids = [node(d - 1) for _ in range(n)]
+            if name in ("script", "style"):
+                kids = [{"k": "text", "s": rng.choice(WORDS)} for _ in range(min(n, 2))]
+            r = {"k": "tag", "name": name, "ws": (rng.random() < 0.5) if ws is None else ws(rng, name),
+                 "attrs": rand_attrs(rng) if attrs else [], "c": kids,
+                 "how": rng.choice(HOWS) if hows else "ctor"}
+            if rng.random() < 0.3:
+                r["via_fn"] = False
+            return r
+        if k == "text":
+            return {"k": "text", "s": text(rng)}
+        if k == "num":
+            return {"k": "num", "v": number_of(rng)}
+        if k == "html":
+            return {"k": "html", "s": leaf_hook(rng, "html") if leaf_hook else "<i>h</i>"}
+        if k == "obj":
+            return {"k": "obj", "s": leaf_hook(rng, "obj") if leaf_hook else "<u>o</u>"}
+        if k == "meta":
+            return {"k": "meta"}
+        if k == "dep":
+            return {"k": "dep", "name": rng.choice(["da", "db", "dc"]), "version": rng.choice(["1.0", "1.1", "2.0"])}
+        if k == "list":
+            return {"k": "list", "t": rng.choice(["list", "tuple", "taglist"]),
+                    "c": [node(d - 1) for _ in range(rng.randint(0, 3))]}
+        if k == "tf":
+            ret = rng.choice(["list", "list", "one"])
+            n = rng.randint(0, 3) if ret == "list" else 1
+            return {"k": "tf", "ret": ret, "c": [node(d - 1) for _ in range(n)]}
+        raise ValueError(k)
+
+    return node(depth, force_tag=root_tag)
+
+
+def flat_children(r):
+    """Model children of a tag/list recipe with container recipes spliced and None dropped."""
+    out = []
+    for c in r.get("c", []):
+        if c["k"] == "list":
+            out.extend(flat_children(c))
+        elif c["k"] == "none":
+            continue
+        else:
+            out.append(c)
+    return out
+
+
+def leaf_text(r) -> str:
+    if r["k"] == "text":
+        return r["s"]
+    if r["k"] == "num":
+        return str(_num(r["v"]))
+    raise ValueError(r["k"])
